@@ -27,8 +27,26 @@ fn ready<T>(p: Poll<std::io::Result<T>>) -> std::io::Result<T> {
     match p {
         Poll::Ready(v) => v,
         // a transport that is not ready is modelled as the task being cancelled at that point (see R2)
-        Poll::Pending => Err(std::io::Error::from(std::io::ErrorKind::Interrupted)),
+        Poll::Pending => Err(__io_error(std::io::ErrorKind::Interrupted)),
     }
+}
+
+// ---------------------------------------------------------------------------------------------- io errors
+// std's io::Error packs kind and tag into a pointer; CBMC cannot constant-fold `kind()` on it, which makes the
+// variant of every error built from it (and, through niche layouts, even Ok/Err of large Results) non-constant and
+// sends symbolic execution down infeasible paths. Every io::Error of the model is therefore created through
+// `__io_error`, which also records its kind; harnesses stub `std::io::Error::kind` with `__last_io_kind`.
+global!(LAST_IO_KIND, set_last_io_kind, last_io_kind_code, u8, 0);
+pub fn __io_error(kind: std::io::ErrorKind) -> std::io::Error {
+    set_last_io_kind(match kind {
+        std::io::ErrorKind::UnexpectedEof => 1, std::io::ErrorKind::WriteZero => 2, std::io::ErrorKind::Interrupted => 3,
+        std::io::ErrorKind::ConnectionReset => 4, std::io::ErrorKind::BrokenPipe => 5, std::io::ErrorKind::InvalidData => 6, _ => 0 });
+    std::io::Error::from(kind)
+}
+pub fn __last_io_kind(_e: &std::io::Error) -> std::io::ErrorKind {
+    match last_io_kind_code() {
+        1 => std::io::ErrorKind::UnexpectedEof, 2 => std::io::ErrorKind::WriteZero, 3 => std::io::ErrorKind::Interrupted,
+        4 => std::io::ErrorKind::ConnectionReset, 5 => std::io::ErrorKind::BrokenPipe, 6 => std::io::ErrorKind::InvalidData, _ => std::io::ErrorKind::Other }
 }
 
 // ---------------------------------------------------------------------------------------------- R2 support
@@ -36,9 +54,15 @@ fn ready<T>(p: Poll<std::io::Result<T>>) -> std::io::Result<T> {
 fn default_choose(n: u32) -> u32 { n - 1 }
 global!(CHOOSE_HOOK, set_choose_hook, choose_hook, fn(u32) -> u32, default_choose);
 pub fn __choose(n: u32) -> u32 { let c = choose_hook()(n); if c < n { c } else { n - 1 } }
-/// Errors that mean "the environment cancelled this future at a frame boundary" (select! loser).
-pub trait CancelProbe { fn is_cancel(&self) -> bool; }
-pub fn __cancelled<T, E: CancelProbe>(r: &Result<T, E>) -> bool { match r { Err(e) => e.is_cancel(), Ok(_) => false } }
+/// Cancellation of a `select!` loser that runs the endless keep_alive() loop (rule R2): the regenerator puts
+/// `if ::tokio::__cancel_point() { return Err(..) }` at the head of that loop; the harness decides (hook) at which
+/// frame boundary the other arm completes. The decision is remembered in a plain flag so that the rewritten
+/// `select!` does not have to inspect the (union-encoded, hence non-constant for CBMC) Result it got back.
+fn default_cancel() -> bool { false }
+global!(CANCEL_HOOK, set_cancel_hook, cancel_hook, fn() -> bool, default_cancel);
+global!(CANCELLED, set_cancelled, cancelled, bool, false);
+pub fn __cancel_point() -> bool { if cancel_hook()() { set_cancelled(true); true } else { false } }
+pub fn __take_cancelled() -> bool { let c = cancelled(); set_cancelled(false); c }
 #[macro_export]
 macro_rules! select { ($($t:tt)*) => { compile_error!("tokio::select! must have been rewritten by regen rule R2") }; }
 
@@ -82,7 +106,15 @@ pub mod io {
         fn poll_read(self: Pin<&mut Self>, _cx: &mut Context<'_>, buf: &mut ReadBuf<'_>) -> Poll<Result<()>> {
             let me = self.get_mut();
             let mut pos = me.position() as usize;
-            while pos < me.get_ref().len() && buf.remaining() > 0 { let b = me.get_ref()[pos]; buf.put_u8(b); pos += 1; }
+            // trip count bounded by the caller's buffer (path-wise concrete), not by the data length: on paths that
+            // CBMC explores although they are infeasible the data length is garbage and would unwind to the bound
+            let want = buf.remaining();
+            let mut i = 0;
+            while i < want {
+                if pos >= me.get_ref().len() { break; }
+                let b = me.get_ref()[pos]; buf.put_u8(b); pos += 1;
+                i += 1;
+            }
             me.set_position(pos as u64);
             Poll::Ready(Ok(()))
         }
@@ -96,9 +128,18 @@ pub mod io {
             Poll::Ready(Ok(()))
         }
     }
+    pub const MODEL_RESERVE: usize = 384;
     impl AsyncWrite for Vec<u8> {
         fn poll_write(self: Pin<&mut Self>, _cx: &mut Context<'_>, b: &[u8]) -> Poll<Result<usize>> {
             let me = self.get_mut();
+            if me.len() + b.len() > me.capacity() {
+                // grow by element-wise copy into a fresh fixed-size allocation instead of realloc (memcpy): keeps
+                // path-wise concrete bytes concrete for CBMC (see read_to_end)
+                let mut nv: Vec<u8> = Vec::with_capacity(if me.len() + b.len() > MODEL_RESERVE { 2 * (me.len() + b.len()) } else { MODEL_RESERVE });
+                let mut k = 0;
+                while k < me.len() { nv.push(me[k]); k += 1; }
+                *me = nv;
+            }
             let mut i = 0;
             while i < b.len() { me.push(b[i]); i += 1; }
             Poll::Ready(Ok(b.len()))
@@ -152,11 +193,14 @@ pub mod io {
         fn read_exact(&mut self, out: &mut [u8]) -> Result<usize> where Self: Unpin {
             let w = __noop_waker(); let mut cx = Context::from_waker(&w);
             let mut got = 0;
-            while got < out.len() {
+            let mut rounds = 0;
+            while rounds < out.len() { // every successful round adds at least one byte: out.len() rounds suffice
+                if got >= out.len() { break; }
+                rounds += 1;
                 let mut rb = ReadBuf::new(&mut out[got..]);
                 ready(Pin::new(&mut *self).poll_read(&mut cx, &mut rb))?;
                 let n = rb.filled().len();
-                if n == 0 { return Err(Error::new(ErrorKind::UnexpectedEof, "early eof")); }
+                if n == 0 { return Err(__io_error(ErrorKind::UnexpectedEof)); /* simple (non-heap) repr: heap-backed io::Error values are poison for CBMC */ }
                 got += n;
             }
             Ok(got)
@@ -170,6 +214,9 @@ pub mod io {
         fn read_to_end(&mut self, out: &mut Vec<u8>) -> Result<usize> where Self: Unpin {
             let w = __noop_waker(); let mut cx = Context::from_waker(&w);
             let mut total = 0;
+            // one allocation of a fixed size instead of amortised regrowth: a realloc copies through memcpy, after
+            // which CBMC no longer knows the (path-wise concrete) byte values
+            if out.capacity() < MODEL_RESERVE { out.reserve(MODEL_RESERVE); }
             loop {
                 let mut one = [0u8; 1];
                 let mut rb = ReadBuf::new(&mut one);
@@ -190,7 +237,7 @@ pub mod io {
             let mut off = 0;
             while off < data.len() {
                 let n = ready(Pin::new(&mut *self).poll_write(&mut cx, &data[off..]))?;
-                if n == 0 { return Err(Error::new(ErrorKind::WriteZero, "write zero")); }
+                if n == 0 { return Err(__io_error(ErrorKind::WriteZero)); }
                 off += n;
             }
             Ok(())
@@ -234,7 +281,12 @@ pub mod time {
     }
     impl Interval {
         pub fn set_missed_tick_behavior(&mut self, b: MissedTickBehavior) { self.behavior = b; unsafe { LAST_INTERVAL_SKIP = b == MissedTickBehavior::Skip; } }
-        pub fn tick(&mut self) -> Instant { self.ticks += 1; unsafe { TICKS_TAKEN += 1; } Instant::now() }
+        /// a completed tick means one period has passed (the first tick of a tokio interval is immediate)
+        pub fn tick(&mut self) -> Instant {
+            unsafe { if self.ticks > 0 { NOW_NS += self.period.as_nanos() as u64; } TICKS_TAKEN += 1; }
+            self.ticks += 1;
+            Instant::now()
+        }
         pub fn period(&self) -> Duration { self.period }
     }
     #[derive(Debug, PartialEq, Eq)]
@@ -297,7 +349,7 @@ pub mod net {
     impl TcpListener {
         pub fn bind<A: ToSocketAddrs>(_a: A) -> Result<TcpListener> { Ok(TcpListener) }
         pub fn accept(&self) -> Result<(TcpStream, SocketAddr)> {
-            match accept_hook()() { Some(x) => Ok(x), None => Err(std::io::Error::from(std::io::ErrorKind::ConnectionAborted)) }
+            match accept_hook()() { Some(x) => Ok(x), None => Err(__io_error(std::io::ErrorKind::ConnectionReset)) }
         }
     }
 }
